@@ -6,9 +6,10 @@ package main
 // retriever.VerifCrashHook, hooks/C19.patch), resume (with further crashes), DB read faults, changed
 // options / source / stray files.
 //
-// This file needs the crash hook in the retriever package, so it is only built with the extra tag
-// `retrhook` (lib/props/c19.py builds the harness with `-tags "verif retrhook"` and, while the hook is
-// not yet committed to /repo, with a `-overlay` that applies hooks/C19.patch without touching /repo).
+// Every field of the call that is meant to bind a resume is a setting of the runner (`opts`, `set`): driver
+// name, targets and their order, compression, zstd level, shard size, batch size, scrub mode, scrub salt and
+// every leaf of the scrub configuration; so are the exempt fields (progress interval, progress callback; the
+// output directory differs on every op anyway because each op works in a fresh temp directory).
 //
 // Two suites share generator and runner:
 //
@@ -28,6 +29,7 @@ import (
 	"os"
 	"path"
 	"path/filepath"
+	"reflect"
 	"regexp"
 	"sort"
 	"strconv"
@@ -151,6 +153,76 @@ func (s c19Suite) Gen(rng *Rng, tier string, w *bufio.Writer, stats *Stats) {
 		fmt.Fprintln(w, "resume 0")
 		fmt.Fprintln(w, "final")
 		stats.Inc("refusal_rounds")
+		// (5) identity: with scrubbing off and on, interrupt the dump, change exactly ONE field of the call, resume:
+		// a bound field must be refused (and restoring it must complete to the uninterrupted result), an exempt or
+		// inert field must not matter
+		leaves := scrubConfigLeaves()
+		nextCodec := map[string]string{"none": "gzip", "gzip": "zstd", "zstd": "none"}[codec]
+		changedTargets := graphs[0].name + ",zz"
+		if len(graphs) > 1 {
+			names := []string{}
+			for i := len(graphs) - 1; i >= 0; i-- {
+				names = append(names, graphs[i].name)
+			}
+			changedTargets = strings.Join(names, ",") // same graphs, other order
+		}
+		for _, scrubOn := range []bool{false, true} {
+			header(fmt.Sprintf("db=%d identity scrub=%v", d, scrubOn), graphs, codec, batch, shard)
+			fmt.Fprintln(w, "set salt s1")
+			if scrubOn {
+				fmt.Fprintln(w, "set scrub full")
+			}
+			type change struct{ apply, restore string }
+			optsLine := func(c string, b, s int) string { return fmt.Sprintf("opts %s %d %d", c, b, s) }
+			base := optsLine(codec, batch, shard)
+			otherScrub, thisScrub := "set scrub full", "set scrub none"
+			if scrubOn {
+				otherScrub, thisScrub = "set scrub none", "set scrub full"
+			}
+			bound := []change{
+				{optsLine(codec, batch, shard+1), base},
+				{optsLine(codec, batch+1, shard), base},
+				{optsLine(nextCodec, batch, shard), base},
+				{"set zstdlevel 5", "set zstdlevel 3"},
+				{"set driver otherdriver", "set driver fake"},
+				{"set targets " + changedTargets, "set targets -"},
+				{otherScrub, thisScrub},
+			}
+			free := []change{{"set progress 7", "set progress 0"}, {"set progresscb 1", "set progresscb 0"}}
+			if scrubOn {
+				bound = append(bound, change{"set salt s2", "set salt s1"})
+				for i, leaf := range leaves {
+					if tier == "thorough" || d%3 == 0 || i == int(rng.Next()%uint64(len(leaves))) || leaf == "FakeDomain" {
+						bound = append(bound, change{"set rules " + leaf, "set rules default"})
+					}
+				}
+			} else {
+				// without scrubbing neither the salt nor the scrub configuration reaches the output
+				free = append(free, change{"set salt s2", "set salt s1"}, change{"set rules FakeDomain", "set rules default"})
+			}
+			pick := func() int { return 3 + rng.Intn(maxPoints-6) }
+			for _, c := range bound {
+				fmt.Fprintf(w, "crash %d\n", pick())
+				fmt.Fprintln(w, c.apply)
+				fmt.Fprintln(w, "resume 0")
+				fmt.Fprintln(w, c.restore)
+				fmt.Fprintln(w, "resume 0")
+				fmt.Fprintln(w, "final")
+				stats.Inc("identity_bound_changes")
+			}
+			for _, c := range free {
+				fmt.Fprintf(w, "crash %d\n", pick())
+				fmt.Fprintln(w, c.apply)
+				fmt.Fprintln(w, "resume 0")
+				fmt.Fprintln(w, "final")
+				fmt.Fprintln(w, c.restore)
+				stats.Inc("identity_free_changes")
+			}
+			// nothing changed at all
+			fmt.Fprintf(w, "crash %d\n", pick())
+			fmt.Fprintln(w, "resume 0")
+			fmt.Fprintln(w, "final")
+		}
 	}
 }
 
@@ -198,12 +270,22 @@ type c19Runner struct {
 	codec        retriever.CompressionCodec
 	batch, shard int
 	hasOpts      bool
-	dir          map[string][]byte // the dump directory between ops
-	dirCodec     retriever.CompressionCodec // codec of the fresh dump that created dir
-	srcVersion   int                        // bumped by srcadd
-	corrupted    map[string]bool            // fragments damaged by the `corrupt` op (described as stray)
-	refKey       string                     // cache key of ref
-	ref          map[string][]byte          // uninterrupted dump of the current source with the current options
+	// further settings of the call (`set <field> <value>`)
+	driver           string // "" = "fake"
+	zstdLevel        int    // 0 = retriever.DefaultZstdLevel
+	scrub            bool   // Scrub = full
+	salt             string
+	rules            string   // "" / "default" = no ScrubConfig reader; otherwise the name of a variant in scrubRuleVariants
+	targetNames      []string // nil = every declared graph in declaration order
+	progressInterval int64
+	progressCb       bool
+	force            bool
+	dir              map[string][]byte          // the dump directory between ops
+	dirCodec         retriever.CompressionCodec // codec of the fresh dump that created dir
+	srcVersion       int                        // bumped by srcadd
+	corrupted        map[string]bool            // fragments damaged by the `corrupt` op (described as stray)
+	refKey           string                     // cache key of ref
+	ref              map[string][]byte          // uninterrupted dump of the current source with the current options
 }
 
 func (s c19Suite) NewRunner(stats *Stats) Runner {
@@ -220,6 +302,33 @@ type crashSentinel struct {
 func (r *c19Runner) runDump(out string, resume bool, crashAt int) (points []string, crashed *crashSentinel, err error) {
 	opts := retriever.DefaultDumpOptions(out)
 	opts.Compression, opts.BatchSize, opts.ShardSize, opts.Resume = r.codec, r.batch, r.shard, resume
+	opts.Force = r.force
+	if r.zstdLevel != 0 {
+		opts.ZstdLevel = r.zstdLevel
+	}
+	if r.scrub {
+		opts.Scrub, opts.Salt = retriever.ScrubFull, r.salt
+		if toml, ok := scrubRuleVariants[r.rules]; ok {
+			opts.ScrubConfig = strings.NewReader(toml)
+		}
+	} else {
+		// inert without scrubbing, but passed all the same
+		opts.Salt = r.salt
+		if toml, ok := scrubRuleVariants[r.rules]; ok {
+			opts.ScrubConfig = strings.NewReader(toml)
+		}
+	}
+	if r.progressInterval != 0 {
+		opts.ProgressInterval = r.progressInterval
+	}
+	if r.progressCb {
+		opts.Progress = func(retriever.ProgressEvent) {}
+	}
+	driver := r.driver
+	if driver == "" {
+		driver = "fake"
+	}
+	targets := r.targets()
 	count := 0
 	retriever.VerifCrashHook = func(name string) {
 		count++
@@ -238,7 +347,7 @@ func (r *c19Runner) runDump(out string, resume bool, crashAt int) (points []stri
 			crashed = &cs
 		}
 	}()
-	_, err = retriever.Dump(context.Background(), r.src.db, "fake", r.src.targets, opts)
+	_, err = retriever.Dump(context.Background(), r.src.db, driver, targets, opts)
 	return points, nil, err
 }
 
@@ -265,6 +374,8 @@ func (r *c19Runner) Step(_ []string, raw string) string {
 		}
 		r.codec, r.batch, r.shard, r.hasOpts = codec, b, sh, true
 		return "ok"
+	case len(t) == 3 && t[0] == "set":
+		return r.set(t[1], t[2])
 	case !r.hasOpts || len(r.src.targets) == 0:
 		return "bad-op"
 	case !r.wellFormed() && (t[0] == "plan" || t[0] == "crash" || t[0] == "readfault" || t[0] == "resume" || t[0] == "resumefault" || t[0] == "final"):
@@ -363,6 +474,124 @@ func (r *c19Runner) Step(_ []string, raw string) string {
 	return "bad-op"
 }
 
+// scrubRuleVariants: one scrub configuration per leaf field of retriever.ScrubberConfig (except Salt, which
+// has its own option), each differing from the defaults in exactly that leaf after newScrubber's normalisation.
+var scrubRuleVariants = map[string]string{
+	"FakeDomain":                             "[scrub]\nfake_domain = \"other.invalid\"\n",
+	"TimestampShiftDays":                     "[scrub]\ntimestamp_shift_days = 23\n",
+	"RedactionMarker":                        "[scrub]\nredaction_marker = \"[GONE]\"\n",
+	"GraphRules.DomainKind":                  "[scrub.graph_rules]\ndomain_kind = \"Realm\"\n",
+	"GraphRules.ObjectIDKey":                 "[scrub.graph_rules]\nobjectid_key = \"oid\"\n",
+	"GraphRules.DomainNameKey":               "[scrub.graph_rules]\ndomain_name_key = \"realm\"\n",
+	"GraphRules.DomainSIDReferenceKeys":      "[scrub.graph_rules]\ndomain_sid_reference_keys = [\"domainsid\"]\n",
+	"GraphRules.ObjectIDReferenceKeys":       "[scrub.graph_rules]\nobjectid_reference_keys = [\"objectid\"]\n",
+	"GraphRules.SelfObjectIDAliasKeys":       "[scrub.graph_rules]\nself_objectid_alias_keys = [\"objectsid\", \"sid2\"]\n",
+	"GraphRules.DomainNameReferenceKeys":     "[scrub.graph_rules]\ndomain_name_reference_keys = [\"domain\"]\n",
+	"GraphRules.CaseInsensitiveDomainNames":  "[scrub.graph_rules]\ncase_insensitive_domain_names = false\n",
+	"GraphRules.PreserveADSIDDomainPrefixes": "[scrub.graph_rules]\npreserve_ad_sid_domain_prefixes = false\n",
+	"Classifier.LongTextThreshold":           "[classifier]\nlong_text_threshold = 99\n",
+	"Classifier.PreserveKeys":                "[classifier]\npreserve_keys = [\"objectid\"]\n",
+	"Classifier.SensitiveKeyMarks":           "[classifier]\nsensitive_key_markers = [\"password\"]\n",
+	"Classifier.ValueShapePatterns.Name":     "[[classifier.value_shapes]]\nname = \"verif-shape\"\npattern = \"^verif$\"\n",
+	"Classifier.ValueShapePatterns.Pattern":  "[[classifier.value_shapes]]\nname = \"verif-shape2\"\npattern = \"^verif[0-9]+$\"\n",
+}
+
+// scrubConfigLeaves enumerates the leaf fields of retriever.ScrubberConfig by reflection (Salt excluded).
+func scrubConfigLeaves() []string {
+	var out []string
+	var walk func(t reflect.Type, prefix string)
+	walk = func(t reflect.Type, prefix string) {
+		for i := 0; i < t.NumField(); i++ {
+			f := t.Field(i)
+			ft := f.Type
+			if ft.Kind() == reflect.Slice && ft.Elem().Kind() == reflect.Struct {
+				ft = ft.Elem()
+			}
+			if ft.Kind() == reflect.Struct {
+				walk(ft, prefix+f.Name+".")
+				continue
+			}
+			if prefix+f.Name != "Salt" {
+				out = append(out, prefix+f.Name)
+			}
+		}
+	}
+	walk(reflect.TypeOf(retriever.ScrubberConfig{}), "")
+	return out
+}
+
+// rulesDiffer: the variant really yields a configuration different from the defaults.
+func rulesDiffer(name string) bool {
+	toml, ok := scrubRuleVariants[name]
+	if !ok {
+		return false
+	}
+	cfg, err := retriever.ReadScrubberConfig(strings.NewReader(toml), retriever.DefaultScrubberConfig())
+	return err == nil && !reflect.DeepEqual(cfg, retriever.DefaultScrubberConfig())
+}
+
+func (r *c19Runner) targets() []retriever.GraphTarget {
+	if r.targetNames == nil {
+		return r.src.targets
+	}
+	out := make([]retriever.GraphTarget, len(r.targetNames))
+	for i, n := range r.targetNames {
+		out[i] = retriever.GraphTarget{Name: n}
+	}
+	return out
+}
+
+func (r *c19Runner) settingsKey() string {
+	return fmt.Sprintf("%s|%d|%v|%s|%s|%s|%v", r.driver, r.zstdLevel, r.scrub, r.salt, r.rules, strings.Join(r.targetNames, ","), r.targetNames == nil)
+}
+
+func (r *c19Runner) set(field, value string) string {
+	n, nerr := strconv.Atoi(value)
+	switch field {
+	case "driver":
+		r.driver = value
+	case "zstdlevel":
+		if nerr != nil || n < 1 {
+			return "bad-op"
+		}
+		r.zstdLevel = n
+	case "scrub":
+		if value != "none" && value != "full" {
+			return "bad-op"
+		}
+		r.scrub = value == "full"
+	case "salt":
+		if value == "-" {
+			value = ""
+		}
+		r.salt = value
+	case "rules":
+		if value != "default" && !rulesDiffer(value) {
+			return "bad-op missing-or-ineffective-variant"
+		}
+		r.rules = value
+	case "targets":
+		if value == "-" {
+			r.targetNames = nil
+		} else {
+			r.targetNames = strings.Split(value, ",")
+		}
+	case "progress":
+		if nerr != nil || n < 0 {
+			return "bad-op"
+		}
+		r.progressInterval = int64(n)
+	case "progresscb":
+		r.progressCb = value == "1"
+	case "force":
+		r.force = value == "1"
+	default:
+		return "bad-op"
+	}
+	r.stats.Inc("set." + field)
+	return "ok"
+}
+
 func (r *c19Runner) wellFormed() bool {
 	for _, name := range r.src.db.GraphNames() {
 		g := r.src.db.Graph(name)
@@ -439,7 +668,7 @@ func normaliseManifest(b []byte) []byte {
 func (r *c19Runner) final() string {
 	return withTempDir(func(dir string) string {
 		r.src.db.FailFetchAt = 0
-		key := fmt.Sprintf("%s/%d/%d/%d", r.codec, r.batch, r.shard, r.srcVersion)
+		key := fmt.Sprintf("%s/%d/%d/%d/%s", r.codec, r.batch, r.shard, r.srcVersion, r.settingsKey())
 		if r.ref == nil || r.refKey != key {
 			out := dir + "/ref"
 			if _, _, err := r.runDump(out, false, 0); err != nil {
